@@ -34,6 +34,23 @@ var (
 	poolsMu  realsync.Mutex
 )
 
+var resets []func()
+
+// RegisterReset is called from generated init functions: f restores a package-level cache or
+// registry of the library to its initial (empty) value.
+func RegisterReset(f func()) { resets = append(resets, f) }
+
+// ResetAll restores every registered package-level map to its initial value, so that explored
+// executions are independent of each other.
+func ResetAll() {
+	for _, f := range resets {
+		f()
+	}
+}
+
+// NumResets reports how many reset functions were generated.
+func NumResets() int { return len(resets) }
+
 // SetPoolChooser enables (or, with nil, disables) explorer-chosen pool answers
 // outside the scheduler. Pools keep their items in an explicit list then.
 func SetPoolChooser(c Chooser) { poolHook = c }
@@ -92,6 +109,7 @@ const (
 	opLock
 	opRLock
 	opOther
+	opRecv
 )
 
 type thread struct {
@@ -101,6 +119,7 @@ type thread struct {
 	pending opKind
 	pm      *Mutex
 	prw     *RWMutex
+	pch     *Chan
 	label   string
 	vc      vc
 	started bool
@@ -177,6 +196,8 @@ func (s *Scheduler) enabled(t *thread) bool {
 		return !t.prw.wheld && t.prw.readers == 0
 	case opRLock:
 		return !t.prw.wheld
+	case opRecv:
+		return len(t.pch.q) > 0 || t.pch.closed
 	}
 	return true
 }
@@ -212,7 +233,13 @@ func (s *Scheduler) Run() (panicVal any, panicTid int) {
 		}
 		i := 0
 		if len(en) > 1 {
-			i = s.choose("sched", len(en))
+			// switching away from a runnable running thread is a preemption; when the running thread
+			// is blocked or finished the switch is free
+			label := "sched-free"
+			if en[0] == s.cur {
+				label = "sched"
+			}
+			i = s.choose(label, len(en))
 		}
 		s.cur = en[i]
 		s.Steps++
@@ -275,6 +302,62 @@ func HBRecv(tok *HBToken) {
 	if s := sched; s != nil && s.cur != nil && tok != nil {
 		s.cur.vc.join(tok.v)
 	}
+}
+
+// ---------------------------------------------------------------- Chan (harness hand-over)
+
+// Chan is an unbounded FIFO hand-over channel for harness scenarios: Send
+// never blocks, Recv blocks (is disabled) until an item is available or the
+// channel is closed. Send→Recv is a happens-before edge.
+type Chan struct {
+	q      []any
+	vcs    []vc
+	closed bool
+}
+
+func NewChan() *Chan { return &Chan{} }
+
+func (c *Chan) Send(v any) {
+	s := sched
+	if s == nil || s.cur == nil {
+		c.q = append(c.q, v)
+		c.vcs = append(c.vcs, nil)
+		return
+	}
+	t := s.cur
+	c.q = append(c.q, v)
+	c.vcs = append(c.vcs, t.vc.clone())
+	t.vc[t.id]++
+	s.point(opOther, nil, nil, "Chan.Send")
+}
+
+func (c *Chan) Close() {
+	c.closed = true
+	if s := sched; s != nil && s.cur != nil {
+		s.point(opOther, nil, nil, "Chan.Close")
+	}
+}
+
+func (c *Chan) Recv() (any, bool) {
+	s := sched
+	if s != nil && s.cur != nil {
+		t := s.cur
+		t.pch = c
+		s.point(opRecv, nil, nil, "Chan.Recv")
+		if len(c.q) == 0 {
+			return nil, false
+		}
+		v := c.q[0]
+		t.vc.join(c.vcs[0])
+		c.q, c.vcs = c.q[1:], c.vcs[1:]
+		return v, true
+	}
+	if len(c.q) == 0 {
+		return nil, false
+	}
+	v := c.q[0]
+	c.q, c.vcs = c.q[1:], c.vcs[1:]
+	return v, true
 }
 
 // ---------------------------------------------------------------- Mutex / RWMutex
